@@ -3,7 +3,10 @@ package harness
 import (
 	"fmt"
 	"sort"
+	"strings"
 	"time"
+
+	"github.com/anishathalye/porcupine"
 
 	fpgo "github.com/TeaEntityLab/fpGo/v2"
 	"verif.local/simrt"
@@ -617,5 +620,189 @@ probed:
 			sc.probes["stranded-check-ran"]++
 		}
 	}
+	if len(vs) == 0 {
+		if v := sc.c07Linearizable(h); v != nil {
+			vs = append(vs, *v)
+		}
+	}
 	return dedupe(vs)
+}
+
+// ---- linearizability against a nondeterministic reference queue (porcupine) ----------------------
+//
+// Sequential specification: a FIFO sequence of items whose first k items are "immediately available"
+// (the channel part, k <= capacity) and whose remaining items are the overflow part (<= buffer maximum).
+// The loader is an internal nondeterministic step: k may grow (never beyond the capacity) at any moment.
+//   Offer/Put ok    : the value is appended; it joins the channel part only if the overflow part is empty
+//                     and the channel part has room, otherwise the overflow part must have room
+//   Offer/Put full  : only if the value could not go straight to the channel part and the overflow part is
+//                     at its maximum
+//   Poll ok v       : k >= 1 and v is the first item; Poll empty: k == 0 (nothing immediately available)
+//   Take*/receive v : as Poll ok; a timeout changes nothing (its honesty is checked on the clock, above)
+// Where the property leaves a choice (an accepted value may wait in the overflow part although the
+// channel has room) the model allows both. Count is not part of the model (it reads two parts
+// non-atomically; the property only constrains it at quiescence). Unbuffered channels (capacity 0) are
+// rendezvous and have no sequential specification: not checked here.
+
+type c07In struct {
+	kind string // offer | put-block | poll | take
+	val  int
+}
+type c07Out struct {
+	val     int
+	ok      bool
+	full    bool
+	empty   bool
+	timeout bool
+}
+type c07State struct {
+	k     int
+	items string // "v1,v2,"
+}
+
+func c07Model(capacity, bufMax int) porcupine.Model {
+	if bufMax < 0 {
+		bufMax = 0
+	}
+	split := func(s string) []string {
+		if s == "" {
+			return nil
+		}
+		return strings.Split(strings.TrimSuffix(s, ","), ",")
+	}
+	nm := porcupine.NondeterministicModel{
+		Init: func() []interface{} { return []interface{}{c07State{}} },
+		Step: func(state, input, output interface{}) []interface{} {
+			st := state.(c07State)
+			in := input.(c07In)
+			out := output.(c07Out)
+			items := split(st.items)
+			n := len(items)
+			var next []interface{}
+			if out.timeout {
+				return []interface{}{st}
+			}
+			hi := capacity
+			if n < hi {
+				hi = n
+			}
+			for k := st.k; k <= hi; k++ { // loader moves
+				over := n - k
+				direct := over == 0 && k < capacity
+				switch in.kind {
+				case "offer", "put-block":
+					switch {
+					case out.ok:
+						if direct {
+							next = append(next, c07State{k + 1, st.items + fmt.Sprintf("%d,", in.val)})
+						}
+						if over < bufMax {
+							next = append(next, c07State{k, st.items + fmt.Sprintf("%d,", in.val)})
+						}
+					case out.full:
+						if !direct && over >= bufMax {
+							next = append(next, c07State{k, st.items})
+						}
+					}
+				case "poll", "take":
+					switch {
+					case out.ok:
+						if k >= 1 && items[0] == fmt.Sprint(out.val) {
+							rest := ""
+							for _, x := range items[1:] {
+								rest += x + ","
+							}
+							next = append(next, c07State{k - 1, rest})
+						}
+					case out.empty:
+						if k == 0 {
+							next = append(next, c07State{k, st.items})
+						}
+					}
+				}
+			}
+			return next
+		},
+		Equal: func(a, b interface{}) bool { return a.(c07State) == b.(c07State) },
+		DescribeOperation: func(input, output interface{}) string {
+			return fmt.Sprintf("%+v -> %+v", input, output)
+		},
+	}
+	return nm.ToModel()
+}
+
+// c07Linearizable feeds the completed calls of the history to porcupine. Returns a violation,
+// or nil; inconclusive results (Unknown) only bump a probe.
+func (sc *c07Scenario) c07Linearizable(h *Hist) *Violation {
+	if sc.Cap < 1 {
+		return nil
+	}
+	var pops []porcupine.Operation
+	for _, op := range h.Ops {
+		if op.Panic != "" {
+			return nil
+		}
+		if !op.Returned {
+			if isOfferOp(op.Name) {
+				return nil // a producer that never returned is reported by the hang clause
+			}
+			continue // a receive that never returned took nothing
+		}
+		var in c07In
+		var out c07Out
+		switch op.Name {
+		case "Offer", "Put", "PutWithTimeout":
+			in = c07In{kind: "offer", val: op.Arg.(int)}
+			if op.Name != "Offer" && sc.Kind == "chan" {
+				in.kind = "put-block"
+			}
+			switch op.Err {
+			case nil:
+				out.ok = true
+			case fpgo.ErrQueueIsFull:
+				out.full = true
+			case fpgo.ErrQueuePutTimeout:
+				out.timeout = true
+			default:
+				return nil // reported as unexpected-error
+			}
+		case "Poll", "Take", "TakeWithTimeout", "GetChannelRecv":
+			in = c07In{kind: "take"}
+			if op.Name == "Poll" {
+				in.kind = "poll"
+			}
+			switch op.Err {
+			case nil:
+				out.ok = true
+				out.val = op.Val.(int)
+			case fpgo.ErrQueueIsEmpty:
+				out.empty = true
+			case fpgo.ErrQueueTakeTimeout:
+				out.timeout = true
+			default:
+				return nil
+			}
+		default:
+			continue
+		}
+		pops = append(pops, porcupine.Operation{ClientId: op.TID, Input: in, Call: int64(op.Inv), Output: out, Return: int64(op.Ret)})
+	}
+	if len(pops) == 0 || len(pops) > 80 {
+		sc.probes["porcupine-skipped-long-history"]++
+		return nil
+	}
+	budget := 2 * time.Second
+	if len(pops) > 30 {
+		budget = 300 * time.Millisecond
+	}
+	switch porcupine.CheckOperationsTimeout(c07Model(sc.Cap, sc.BufMax), pops, budget) {
+	case porcupine.Illegal:
+		return &Violation{Clause: "not-linearizable", Fingerprint: sc.Kind + ":no-sequential-queue-behaviour-explains-the-history",
+			Detail: fmt.Sprintf("porcupine: no order of the calls consistent with real time is a behaviour of a FIFO queue with channel part <= %d and overflow part <= %d: %s", sc.Cap, sc.BufMax, histString(h))}
+	case porcupine.Unknown:
+		sc.probes["porcupine-unknown"]++
+	default:
+		sc.probes["porcupine-ok"]++
+	}
+	return nil
 }
